@@ -371,6 +371,7 @@ func c09MsgCase(c *h.Ctx, k *c09Case, stats map[string]int) {
 		return
 	}
 	c.Exec(1)
+	c.Retain("llmnr.Message.Encode", out, smp)
 	c09EmitEnc(c, k.K, k.M, out, eerr != nil) // TLC parses the library's bytes with the specification's decoder
 	if eerr != nil {
 		return
@@ -425,6 +426,7 @@ func c09NameCase(c *h.Ctx, k *c09Case) {
 	}
 	enc, err := llmnr.EncodeDomainName(text)
 	c.Exec(1)
+	c.Retain("llmnr.EncodeDomainName", enc, smp)
 	b, _ := json.Marshal(map[string]interface{}{"op": "encname", "n": k.N, "out": h.Bytes(enc), "err": err != nil})
 	c.Emit(b)
 	if err != nil {
